@@ -764,10 +764,11 @@ def sibling_dump(f, rename):
 def single_defs(m):
     d, dup = {}, set()
     for f in m.functions.values():
-        if f.cls is None and "." not in f.dqual:
-            if f.dqual in d:
-                dup.add(f.dqual)
-            d[f.dqual] = f
+        if "<locals>" in f.dqual or "<lambda>" in f.dqual:
+            continue
+        if f.dqual in d:
+            dup.add(f.dqual)
+        d[f.dqual] = f
     return {k: v for k, v in d.items() if k not in dup}
 
 
